@@ -89,9 +89,9 @@ class C15(c02.C02):
     id = "C15"
     modules = ["Proofs.FramingProofs", "Proofs.FramingProofsFrames", "Proofs.FramingProofsCut",
                "Proofs.FramingProofsWrap", "Proofs.C15Endpoint", "Props.C15"]
-    obligations = ["step_app", "run_app", "chunk_independence", "run_eof_done", "run_frame", "parse_cl_no_lf",
+    obligations = ["chunk_independence", "run_frame", "parse_cl_no_lf",   # (C02's chain is checked by ./check C02)
                    "partial_line", "partial_body", "cut_inside_frame", "loop_on_prefix", "prefix_dispatch_complete_frames",
-                   "terminates_normally", "no_partial_dispatch", "cut_bodies_full", "conforming_all",
+                   "terminates_normally", "no_partial_dispatch",
                    "wrapper_releases", "wrapper_releases_any", "tcp_callback_closes_writer", "wrapper_returns_iff",
                    "send_data_never_raises", "send_data_effects",
                    "C15_framing", "C15_cut_inside_body", "C15_nonvacuous", "C15_wrappers",
@@ -243,7 +243,7 @@ class C15(c02.C02):
         from pygls.lsp.server import LanguageServer
         msgs = lsp_session()
         data = b"".join(py_frame(*m) for m in msgs)
-        cuts = range(len(data) + 1) if not chk.quick else sample_cuts(msgs, 40, chk.rng)
+        cuts = range(len(data) + 1) if not chk.quick else sample_cuts(msgs, 24, chk.rng)
         viol, n = [], 0
 
         def on_alarm(signum, frame):
@@ -295,6 +295,34 @@ class C15(c02.C02):
                     S = {"ret": "returns", "stop_set": True, "pool_down": True, "handled": complete_in(msgs, cut)}
                     if impl != S:
                         viol.append(self._viol({"k": "wrapper", "mode": mode, "cut": cut}, impl, S))
+            # @thread handlers queued behind ONE worker when the input ends: shutdown() waits for all of them
+            for which in ("_start_io_sync", "_start_io_async"):
+                n += 1
+                srv = LanguageServer("c15", "1")
+                srv._max_workers = 1
+                done = []
+
+                @srv.thread()
+                @srv.feature("t/slow")
+                def slow(params, _d=done):
+                    time.sleep(0.01)
+                    _d.append(1)
+                sl = b"".join(py_frame(0, b"", jbody({"jsonrpc": "2.0", "method": "t/slow", "params": {"i": i}}))
+                              for i in range(6))
+                try:
+                    signal.setitimer(signal.ITIMER_REAL, 20)
+                    getattr(srv, which)(io.BytesIO(sl), io.BytesIO())
+                    ret = "returns"
+                except c02.HarnessTimeout:
+                    ret = "hang"
+                except BaseException as e:      # noqa
+                    ret = "raise:" + type(e).__name__
+                finally:
+                    signal.setitimer(signal.ITIMER_REAL, 0)
+                impl = {"ret": ret, "thread_done": len(done)}
+                S = {"ret": "returns", "thread_done": 6}
+                if impl != S:
+                    viol.append(self._viol({"k": "wrapper", "mode": which + "/thread-backlog"}, impl, S))
             # a loop that ends with an exception (int() refuses 4301 digits): released all the same, propagated
             for which in ("_start_io_sync", "_start_io_async"):
                 n += 1
@@ -336,7 +364,9 @@ class C15(c02.C02):
             def report_server_error(self, error, source):
                 self.hook_calls.append(type(error).__name__)
 
-        def run(k, exc, quiet, hook_raises=False):
+        def run(k, exc, quiet, hook_raises=False, entry="_start_io_async"):
+            """The session through the REAL wrapper (the server's own stop event and pool), stdout = a
+            stream whose write raises from the k-th call on."""
             srv = (Quiet if quiet else LanguageServer)("c15", "1")
             srv.hook_calls = []
             if hook_raises:
@@ -361,23 +391,15 @@ class C15(c02.C02):
                     if k is not None and W.calls >= k:
                         raise exc("writer failed")
                     W.ok += 1
+                def flush(self):
+                    pass
                 def close(self):
                     pass
-            srv.protocol.set_writer(W())
-            stop = threading.Event()
-            loop = asyncio.new_event_loop()
             try:
-                reader = asyncio.StreamReader(loop=loop)
-                task = loop.create_task(io_.run_async(stop, reader, srv.protocol, error_handler=srv._report_server_error))
-                c02.spin(loop)
-                reader.feed_data(data); c02.spin(loop)
-                reader.feed_eof(); c02.spin(loop)
-                if not task.done():
-                    task.cancel(); c02.spin(loop); term = "hang"
-                else:
-                    term = c02.term_of(task.exception())
-            finally:
-                loop.close()
+                getattr(srv, entry)(io.BytesIO(data), W())
+                term = "normal"
+            except BaseException as e:      # noqa
+                term = "raise:" + type(e).__name__
             doc = srv.workspace.text_documents.get("file:///c15.txt")
             return {"term": term, "handled": len(handled), "echoed": echoed,
                     "text": None if doc is None else doc.source, "version": None if doc is None else doc.version,
@@ -390,23 +412,26 @@ class C15(c02.C02):
         n += 1
         if base != S or nwrites < 4:
             viol.append(self._viol({"k": "failing-writer", "from": None}, dict(base, writes=nwrites), S))
-        excs = [BrokenPipeError, OSError, ValueError]
+        excs = [BrokenPipeError, ConnectionResetError, OSError, ValueError]
         for k in range(1, nwrites + 2):
-            for exc in (excs if not chk.quick else excs[: 2 if k > 2 else 3]):
+            for exc in excs:
                 for flavour in ("default-hook", "quiet-hook", "raising-hook"):
-                    n += 1
-                    impl, W, srv = run(k, exc, flavour == "quiet-hook", flavour == "raising-hook")
-                    bad = impl != S
-                    extra = {}
-                    if flavour != "default-hook":
-                        # the hook is called once per failed write, with the writer's exception
-                        failed = W.calls - W.ok
-                        extra = {"hook_calls": len(srv.hook_calls), "failed_writes": failed}
-                        if len(srv.hook_calls) != failed or W.calls != nwrites:
-                            bad = True
-                    if bad:
-                        viol.append(self._viol({"k": "failing-writer", "from": k, "exc": exc.__name__, "hook": flavour},
-                                               dict(impl, **extra), S))
+                    for ei, entry in enumerate(("_start_io_async", "_start_io_sync")):
+                        if chk.quick and (k + excs.index(exc) + ei) % 2:
+                            continue                # quick tier: alternate the two wrappers
+                        n += 1
+                        impl, W, srv = run(k, exc, flavour == "quiet-hook", flavour == "raising-hook", entry)
+                        bad = impl != S
+                        extra = {}
+                        if flavour != "default-hook":
+                            # the hook is called once per failed write, with the writer's exception
+                            failed = W.calls - W.ok
+                            extra = {"hook_calls": len(srv.hook_calls), "failed_writes": failed}
+                            if len(srv.hook_calls) != failed or W.calls != nwrites:
+                                bad = True
+                        if bad:
+                            viol.append(self._viol({"k": "failing-writer", "from": k, "exc": exc.__name__,
+                                                    "hook": flavour, "entry": entry}, dict(impl, **extra), S))
         return viol[:3], n
 
     # -- (3) real start_tcp / stdio servers in subprocesses, connection cut at sampled offsets, FIN and RST
@@ -422,6 +447,13 @@ class C15(c02.C02):
         for cut in cuts:
             jobs += [("tcp", "fin", cut), ("tcp", "rst", cut), ("stdio", "close", cut)]
         jobs.append(("tcp", "overlong-line", 0))      # the loop raises ValueError inside the connection callback
+        # @thread handlers queued behind one worker when the peer disconnects: every complete frame is still handled
+        slow = [(0, b"", jbody({"jsonrpc": "2.0", "method": "t/slow", "params": {"i": i}})) for i in range(6)]
+        sdata = b"".join(py_frame(*m) for m in slow)
+        jobs.append(("tcp", "fin-backlog", len(sdata)))
+        jobs.append(("tcp", "fin-backlog", frame_ends(slow)[3] + 7))
+        # the client stops reading: the server's writes fail with a real BrokenPipeError, inbound messages still count
+        jobs.append(("stdio", "stdout-broken", len(data)))
         env = dict(os.environ, PYTHONPATH=core.REPO, PYTHONHASHSEED="0")
         results = [None] * len(jobs)
         lock = threading.Lock()
@@ -434,7 +466,10 @@ class C15(c02.C02):
                 if i is None:
                     return
                 try:
-                    results[i] = self._real_case(jobs[i], msgs, data, env)
+                    if jobs[i][1] == "fin-backlog":
+                        results[i] = self._real_case(jobs[i], slow, sdata, env)
+                    else:
+                        results[i] = self._real_case(jobs[i], msgs, data, env)
                 except Exception as e:      # noqa
                     results[i] = {"harness-error": type(e).__name__ + ": " + str(e)[:200]}
         ths = [threading.Thread(target=worker, daemon=True) for _ in range(4)]
@@ -444,8 +479,11 @@ class C15(c02.C02):
             t.join(240)
         viol = []
         for job, impl in zip(jobs, results):
-            S = {"handled": complete_in(msgs, job[2]), "returned": True, "stop_set": True, "pool_down": True,
-                 "exit_status": 0}
+            ms = slow if job[1] == "fin-backlog" else msgs
+            S = {"handled": complete_in(ms, job[2]), "returned": True, "stop_set": True, "pool_down": True,
+                 "exit_status": 0, "thread_done": complete_in(ms, job[2]) if job[1] == "fin-backlog" else 0}
+            if job[1] == "stdout-broken" and isinstance(impl, dict):
+                impl = dict(impl, exit_status=0)       # the interpreter's own flush of the dead stdout may set 120
             if impl != S:
                 viol.append(self._viol({"k": "real-server", "transport": job[0], "close": job[1], "cut": job[2]}, impl, S))
         return viol[:3], len(jobs)
@@ -496,7 +534,7 @@ class C15(c02.C02):
                 sock.sendall(prefix if how != "overlong-line" else b"X" * 70000 + b"\n")
                 wait_handled(5)
                 time.sleep(0.05)
-                if how in ("fin", "overlong-line"):
+                if how in ("fin", "overlong-line", "fin-backlog"):
                     sock.shutdown(socket.SHUT_WR)
                     sock.settimeout(bound)
                     try:
@@ -510,8 +548,11 @@ class C15(c02.C02):
                     sock.setsockopt(socket.SOL_SOCKET, socket.SO_LINGER, struct.pack("ii", 1, 0))
                     sock.close()
             else:
-                drain = threading.Thread(target=lambda: p.stdout.read(), daemon=True)
-                drain.start()
+                if how == "stdout-broken":
+                    p.stdout.close()
+                else:
+                    drain = threading.Thread(target=lambda: p.stdout.read(), daemon=True)
+                    drain.start()
                 p.stdin.write(prefix)
                 p.stdin.flush()
                 wait_handled(5)
@@ -537,7 +578,8 @@ class C15(c02.C02):
         ret = [x for x in lines if x.startswith("RETURNED") or x.startswith("RAISED")]
         last = ret[-1] if ret else ""
         return {"handled": handled(), "returned": last.startswith("RETURNED"), "stop_set": "stop=1" in last,
-                "pool_down": "pool=1" in last, "exit_status": rc if rc is not None else "still-running"}
+                "pool_down": "pool=1" in last, "exit_status": rc if rc is not None else "still-running",
+                "thread_done": sum(1 for x in lines if x == "T")}
 
     def distribution(self, cases):
         d = {}
